@@ -19,6 +19,7 @@ import (
 	"os"
 	"path/filepath"
 	"sort"
+	"strings"
 	"sync"
 	"testing"
 
@@ -34,11 +35,13 @@ type stats struct {
 	Known       map[string]int64 `json:"known_hits"`
 	Samples     []any            `json:"samples"`
 	Notes       []string         `json:"notes"`
+	Attempts    map[string]int64 `json:"attempts"`  // by label: property invocations
+	Abandoned   map[string]int64 `json:"abandoned"` // by label: invocations given up through t.Skip
 }
 
 var (
 	mu       sync.Mutex
-	st       = stats{Classes: map[string]int64{}, Excluded: map[string]int64{}, Known: map[string]int64{}}
+	st       = stats{Classes: map[string]int64{}, Excluded: map[string]int64{}, Known: map[string]int64{}, Attempts: map[string]int64{}, Abandoned: map[string]int64{}}
 	distinct = map[uint64]struct{}{}
 	nsamples = map[string]int{}
 )
@@ -203,7 +206,35 @@ func Check(t *testing.T, label string, prop func(*rapid.T)) {
 			Violation(label, msg)
 		}
 	})
-	rapid.Check(t, prop)
+	rapid.Check(t, func(rt *rapid.T) {
+		done := false
+		defer func() {
+			if done {
+				return
+			}
+			// the property did not run to its end: a failure (reported through Failf) or a case that was abandoned
+			// (t.Skip: a set-up step failed, a precondition did not hold). Abandoned cases are counted with their
+			// reason: a check whose cases are mostly abandoned has examined little, whatever its verdict.
+			if r := recover(); r != nil {
+				if strings.Contains(fmt.Sprintf("%T", r), "invalidData") {
+					reason := fmt.Sprint(r)
+					if len(reason) > 90 {
+						reason = reason[:90]
+					}
+					mu.Lock()
+					st.Excluded["abandoned ("+label+"): "+reason]++
+					st.Abandoned[label]++
+					mu.Unlock()
+				}
+				panic(r)
+			}
+		}()
+		mu.Lock()
+		st.Attempts[label]++
+		mu.Unlock()
+		prop(rt)
+		done = true
+	})
 }
 
 // Fuzz exposes a rapid property as a native (coverage-guided) fuzz target. With
